@@ -165,6 +165,70 @@ def value_consumed(view, start, local, path, depth=0, seen=None):
     return False
 
 
+def value_must_be_consumed(view, start, local, path, depth=0):
+    """All-paths variant: returns the span-less position (bb, idx) of a point where the value dies unused (it is
+    overwritten, or the function returns) on some path from the definition, or None when every path that
+    neither diverges nor loops forever reads it first."""
+    if depth > 4:
+        return None
+    work = [start]
+    visited = set()
+    while work:
+        bi, si = work.pop()
+        if (bi, si) in visited:
+            continue
+        visited.add((bi, si))
+        bb = view.blocks[bi]
+        if bb["cleanup"]:
+            continue
+        stmts = bb["stmts"]
+        done = False
+        for j in range(si, len(stmts)):
+            s = stmts[j]
+            used = False
+            for rp, plain_to in _stmt_reads(s, local):
+                if not _compatible(rp, path):
+                    continue
+                if plain_to is not None and plain_to != 0 and len(rp) >= len(path):
+                    if value_must_be_consumed(view, (bi, j + 1), plain_to, (), depth + 1) is None:
+                        used = True
+                else:
+                    used = True
+            if used:
+                done = True
+                break
+            if s[0] == "a" and s[1][0] == local:
+                wp = mir.field_path(s[1][1])
+                if all(isinstance(pe, list) and pe[0] == "f" for pe in s[1][1]) and tuple(wp) == tuple(path[:len(wp)]):
+                    return (bi, j)
+        if done:
+            continue
+        t = bb["term"]
+        k = t["k"]
+        if k == "call":
+            if any(a[0] in ("c", "m") and a[1][0] == local and _compatible(mir.field_path(a[1][1]), path)
+                   for a in t["args"]):
+                continue
+            if t["t"] is None:
+                continue            # diverges
+            if t["dst"][0] == local and not t["dst"][1]:
+                return (bi, "term")
+        elif k == "switch":
+            o = t["op"]
+            if o[0] in ("c", "m") and o[1][0] == local:
+                continue
+        elif k == "ret":
+            if local == 0:
+                continue
+            return (bi, "ret")
+        elif k == "unreach":
+            continue
+        for nb in view.succ[bi]:
+            if not view.blocks[nb]["cleanup"]:
+                work.append((nb, 0))
+    return None
+
+
 def run(facts, report, config, scope_prefix=("modular::", "<modular::"), exclude_prefix=(), table="c08.toml",
         auto_wrapping=False, counter="carry_returning_calls_in_modular"):
     """Reviewed drops are keyed by (function, callee) with a count `drops` (default 1): an edit that adds or
@@ -179,6 +243,7 @@ def run(facts, report, config, scope_prefix=("modular::", "<modular::"), exclude
             continue
         view = mir.BodyView(b)
         dropped = {}
+        partial = {}
         nseg = {}
         for bi, t in view.calls():
             if view.blocks[bi]["cleanup"]:
@@ -204,8 +269,12 @@ def run(facts, report, config, scope_prefix=("modular::", "<modular::"), exclude
                 continue
             used_carry = value_consumed(view, (t["t"], 0), t["dst"][0], carry_path)
             if used_carry:
+                dies = value_must_be_consumed(view, (t["t"], 0), t["dst"][0], carry_path)
+                if dies is not None:
+                    partial.setdefault("carry.final|%s|%s" % (norm_id(b["id"]), seg), []).append((seg, t["s"]))
+                    continue
                 report.add(Instance("%s|call%d" % (k0, n), "carry", "ok",
-                                    "auto: the carry/borrow result of %s is consumed" % seg, t["s"],
+                                    "auto: the carry/borrow result of %s is consumed on every path" % seg, t["s"],
                                     {"body": b["id"]}), config)
                 continue
             if auto_wrapping and ("wrapping" in (b.get("name") or "") or "wrapping::Wrapping<" in (b.get("impl_self") or "")):
@@ -214,6 +283,21 @@ def run(facts, report, config, scope_prefix=("modular::", "<modular::"), exclude
                                     t["s"], {"body": b["id"]}), config)
                 continue
             dropped.setdefault(k0, []).append((seg, t["s"]))
+        for k0, sites in partial.items():
+            e = reviewed.get(k0)
+            allowed = int(e.get("drops", 1)) if e is not None else 0
+            if e is not None:
+                used.add(k0)
+            if len(sites) <= allowed:
+                report.add(Instance(k0, "carry.final", "reviewed", "reviewed (%d site(s), %d reviewed): %s" % (
+                    len(sites), allowed, e["reason"]), sites[0][1], {"body": b["id"], "sites": [x for _, x in sites]}), config)
+            else:
+                report.add(Instance(k0, "carry.final", "violation",
+                                    "the carry/borrow returned by `%s` in `%s` is consumed on some paths but dies unused on "
+                                    "another (overwritten by the next link of the chain, or the function returns) at %d "
+                                    "site(s), %d reviewed: a chain whose carry-out is not fed into the next step, or a final "
+                                    "carry that is silently discarded" % (sites[0][0], b["id"], len(sites), allowed),
+                                    sites[-1][1], {"body": b["id"], "sites": [x for _, x in sites]}), config)
         for k0, sites in dropped.items():
             e = reviewed.get(k0)
             allowed = int(e.get("drops", 1)) if e is not None else 0
